@@ -65,6 +65,12 @@ pub fn vin<T: VIn + kani::Arbitrary>() -> T {
     x
 }
 
+/// the k-th value drawn so far (k < number of `vin()` calls made)
+#[cfg(kani)]
+pub fn vpeek(k: usize) -> u64 {
+    unsafe { VERIF_W[k] }
+}
+
 #[cfg(kani)]
 pub fn assume(c: bool) {
     kani::assume(c);
@@ -74,6 +80,13 @@ pub fn assume(c: bool) {
 mod native {
     use std::sync::Mutex;
     pub static WITNESS: Mutex<Option<(Vec<u64>, usize)>> = Mutex::new(None);
+
+    pub fn peek(k: usize) -> u64 {
+        let g = WITNESS.lock().unwrap();
+        let (vals, pos) = g.as_ref().expect("vpeek before the first vin");
+        assert!(k < *pos, "vpeek of a value not drawn yet");
+        vals[k]
+    }
 
     pub fn next() -> u64 {
         let mut g = WITNESS.lock().unwrap();
@@ -101,6 +114,11 @@ mod native {
 #[cfg(not(kani))]
 pub fn vin<T: VIn>() -> T {
     T::from_u64(native::next())
+}
+
+#[cfg(not(kani))]
+pub fn vpeek(k: usize) -> u64 {
+    native::peek(k)
 }
 
 #[cfg(not(kani))]
